@@ -13,6 +13,7 @@ EXPLANATION = (
     "result inspected, on every successful path. Together: the destination is only touched after assembly can no longer "
     "fail, and success is reported only through the Ok successor of every write."
     ' R4: every Ok return of the compile arm lies behind a write to the destination. R5: closed panic ledger from the opening of the destination to the exit. R6: exit statuses on the compile path are constants. R7: behind the open, only writes on the opened destination can fail (a sole opener that also writes counts as such).'
+    " R8: the opening of the destination is dominated by a status line written to stdout on every path (a routine that prints on all its ways), so a dead stdout ends the command before the destination is touched."
 )
 NOT_DECIDED = ("what the kernel does under faults; preservation of a pre-existing regular file when a device fills "
                "half-way through the single write (would need write-to-temp + rename)")
@@ -285,6 +286,38 @@ def run(ctx):
                           "behind the opening of the destination the compile arm can fail in `%s`, which is not a write to the destination: if it fails the "
                           "object file is already (partly or completely) written and compile exits non-zero" % short(str((strangers or io)[0][1])))
     ctx.note("%d fallible I/O step(s) behind the open" % n7)
+    ctx.finish_rule()
+
+    # ------------------------------------------------------------------ R8
+    # the status lines of compile go to stdout, and a stdout that cannot be written ends the process at the first of them (println!
+    # panics). That first line therefore stands in front of the opening of the destination: a dead stdout (`>/dev/full`, a closed pipe)
+    # then stops the command before the destination is touched, instead of behind its truncation with a non-zero exit
+    ctx.rule("C08.R8", "the destination is opened only behind the first status line on stdout", floor=1)
+    PRINT = "std::io::stdio::_print"
+    # routines of the binary that write to stdout on every way through them (message, file_message); one that merely may print does not
+    # make a dead stdout end the command
+    printers = {PRINT}
+    grew = True
+    while grew:
+        grew = False
+        for n, f in ctx.prog.fns.items():
+            if f.bkind != "fn" or not n.startswith("bin::") or n in printers or n == MAIN:
+                continue
+            pb = {b for b, t, c in f.calls() if c in printers}
+            rets_ = {b for b in f.live_blocks() if f.term(b)["k"] == "return"}
+            if pb and not (f.reachable(0, avoid=pb) & rets_):
+                printers.add(n)
+                grew = True
+    later = [b for b, t, c in main.calls() if b in after and c in printers]
+    for ob, oc in opens:
+        ctx.instance(1)
+        first = [b for b, t, c in main.calls() if b in region and c in printers and main.dominates(b, ob) and b != ob]
+        ok = bool(first) or not later
+        ctx.oblig(ok, {"open": sp_file_line(main.term(ob).get("sp")), "status lines in front": len(first), "behind": len(later)}, "a stdout line dominates the open")
+        if not ok:
+            ctx.violation("open-before-first-stdout", sp_file_line(main.term(ob).get("sp")),
+                          "the compile arm opens (creates / truncates) the destination before it has written anything to stdout, and prints its status there "
+                          "afterwards: with stdout unwritable the process dies at that later line - non-zero exit, destination already replaced")
     ctx.finish_rule()
 
 
